@@ -117,10 +117,22 @@ func scenStateMsg(e *Env, args []string, r *rand.Rand) {
 		ihold = 30 * time.Millisecond
 	}
 	p := e.addPeer(1, PeerOpts{LocalAS: localAS, RemoteAS: remoteAS, Hold: hold, Passive: dir == "in", IdleHold: ihold})
+	// busy=<ms>: the plugin takes that long in OnOpenMessage and in every handler call, so that what the remote
+	// sends next is already waiting in the reader when the FSM goroutine comes back
+	if b := atoi(m["busy"], 0); b > 0 {
+		p.plugin.OpenDelay = time.Duration(b) * time.Millisecond
+		p.plugin.HandlerDelay = time.Duration(b) * time.Millisecond
+	}
 	e.serve()
 	if m["second"] == "1" {
 		// the stimulus hits the SECOND connection of the same (outbound) FSM: the first session is ended by a Cease
 		p.waitEv(0, stepWait, "api.ret", "AddPeer")
+	}
+	// state "estrace": the stimulus travels directly behind the KEEPALIVE that establishes the session (one
+	// write), so it is already waiting when the FSM enters Established
+	estrace := state == "estrace"
+	if estrace {
+		state = "openConfirm"
 	}
 	c := p.bring(dir, state, 90, remoteID)
 	if c != nil && m["second"] == "1" {
@@ -130,9 +142,19 @@ func scenStateMsg(e *Env, args []string, r *rand.Rand) {
 		c = p.bring(dir, state, 90, remoteID)
 	}
 	if c != nil {
+		pre := []byte(nil)
+		if estrace {
+			pre = wire.Keepalive()
+		}
 		switch stim {
 		case "fin":
-			c.drainClose()
+			if estrace {
+				c.send(pre)
+				c.fin()
+				c.waitEnd(stepWait)
+			} else {
+				c.drainClose()
+			}
 		case "fin-midheader", "fin-midbody":
 			// the stream ends inside a message: a transport failure like any other (no NOTIFICATION is due)
 			b := wire.Update([]byte{1, 2, 3, 4, 5, 6, 7, 8})
@@ -145,7 +167,16 @@ func scenStateMsg(e *Env, args []string, r *rand.Rand) {
 		case "rst":
 			c.reset()
 		default:
-			b := stimulus(stim, r)
+			b := append(pre, stimulus(stim, r)...)
+			// trail=<n>: n further well-formed messages directly behind the stimulus, in the same write: whatever
+			// the stimulus does to the session, they must not wedge or crash anything
+			for i := atoi(m["trail"], 0); i > 0; i-- {
+				if i%2 == 1 {
+					b = append(b, wire.Keepalive()...)
+				} else {
+					b = append(b, wire.Update([]byte{0, 0, 0, 0})...)
+				}
+			}
 			if gap := atoi(m["gap"], 0); gap > 0 {
 				// one message cut in two writes with a real pause between them
 				cut := 5 + r.Intn(len(b)-5)
@@ -161,7 +192,11 @@ func scenStateMsg(e *Env, args []string, r *rand.Rand) {
 			} else {
 				c.send(b)
 			}
-			if stim != "update" && !(stim == "ka" && state != "openSent") && !(stim == "open" && state == "openSent") {
+			if m["fin"] == "1" {
+				// the remote half-closes directly behind what it sent: all of it is still read and acted upon
+				c.fin()
+				c.waitEnd(stepWait)
+			} else if stim != "update" && !(stim == "ka" && state != "openSent") && !(stim == "open" && state == "openSent") {
 				c.waitEnd(stepWait)
 			} else {
 				time.Sleep(20 * time.Millisecond)
@@ -317,6 +352,11 @@ func scenUpdates(e *Env, args []string, r *rand.Rand) {
 		p.plugin.HandlerVeto = veto
 		p.plugin.VetoNotif = &bgp.Notification{Code: 3, Subcode: 9, Data: []byte{7}}
 	}
+	// slow=<µs>: the handler takes that long, so the reader gets ahead of the FSM goroutine
+	p.plugin.HandlerDelay = time.Duration(atoi(m["slow"], 0)) * time.Microsecond
+	// end=fin | badhdr: the remote half-closes (or sends a faulty header) directly behind the last UPDATE: every
+	// UPDATE it sent before that must still be delivered
+	end := m["end"]
 	e.serve()
 	c := p.bring(dir, "established", 90, remoteID)
 	if c != nil {
@@ -344,6 +384,9 @@ func scenUpdates(e *Env, args []string, r *rand.Rand) {
 		// random partition into writes: 1-byte writes, writes spanning several messages, …
 		var segs []int
 		mode := r.Intn(4)
+		if end != "" {
+			mode = 1 // large writes: the reader must be able to get ahead of the (slow) handler
+		}
 		for rem := len(stream); rem > 0; {
 			var s int
 			switch mode {
@@ -365,7 +408,27 @@ func scenUpdates(e *Env, args []string, r *rand.Rand) {
 			segs = append(segs, s)
 			rem -= s
 		}
-		c.send(stream, segs...)
+		if end == "badhdr" {
+			bad := wire.Keepalive()
+			bad[18] = 9
+			stream = append(stream, bad...)
+			segs = append(segs, len(bad))
+		}
+		if pause := atoi(m["pause"], 0); pause > 0 && len(stream) > 40 {
+			// one long pause inside a message (after its first 7 bytes, or inside its body): far below any hold time
+			cut := 7
+			if r.Intn(2) == 0 {
+				cut = 19 + 3
+			}
+			c.send(stream[:cut])
+			time.Sleep(time.Duration(pause) * time.Millisecond)
+			c.send(stream[cut:])
+		} else {
+			c.send(stream, segs...)
+		}
+		if end == "fin" {
+			c.fin()
+		}
 		// wait until everything was delivered (or the session ended)
 		want := nupd
 		if veto > 0 && veto <= nupd {
@@ -381,7 +444,7 @@ func scenUpdates(e *Env, args []string, r *rand.Rand) {
 			}
 			time.Sleep(time.Millisecond)
 		}
-		if veto > 0 && veto <= nupd {
+		if (veto > 0 && veto <= nupd) || end != "" {
 			c.waitEnd(stepWait)
 		}
 		time.Sleep(10 * time.Millisecond)
@@ -408,6 +471,10 @@ func init() {
 						out = append(out, fmt.Sprintf("state-msg:%s:%s:%s:second=1", dir, st, s))
 					}
 				}
+				// further messages directly behind one that ends (or does not end) the session, in the same write
+				for _, s := range []string{"open", "update", "ka", "notif-cease", "notif-other", "badtype"} {
+					out = append(out, fmt.Sprintf("state-msg:%s:%s:%s:trail=%d", dir, st, s, 1+len(s)%3))
+				}
 				if tier == "thorough" {
 					for code := 1; code <= 7; code++ {
 						for _, sub := range []int{0, 1, 9} {
@@ -415,6 +482,22 @@ func init() {
 						}
 					}
 				}
+			}
+		}
+		// OPEN, further messages and FIN in one go while the plugin is busy in OnOpenMessage; an unexpected message
+		// and FIN while the handler is busy
+		for _, dir := range []string{"out", "in"} {
+			for i := 0; i < 3; i++ {
+				out = append(out, fmt.Sprintf("state-msg:%s:openSent:open:trail=2:fin=1:busy=3:i=%d", dir, i),
+					fmt.Sprintf("state-msg:%s:openSent:open:trail=1:fin=1:busy=3:i=%d", dir, i),
+					fmt.Sprintf("state-msg:%s:estrace:open:fin=1:busy=3:i=%d", dir, i))
+			}
+			out = append(out, fmt.Sprintf("state-msg:%s:openConfirm:update:fin=1", dir), fmt.Sprintf("state-msg:%s:established:open:fin=1", dir))
+		}
+		// the stimulus travels directly behind the KEEPALIVE that establishes the session
+		for _, dir := range []string{"out", "in"} {
+			for _, s := range []string{"open", "update", "ka", "notif-cease", "notif-other", "fin", "rst", "badmarker"} {
+				out = append(out, fmt.Sprintf("state-msg:%s:estrace:%s", dir, s))
 			}
 		}
 		return out
@@ -465,6 +548,18 @@ func init() {
 			out = append(out, fmt.Sprintf("updates:%s:n=%d:veto=%d:k=%d", dir, cnt, veto, i))
 		}
 		out = append(out, "handshake:out:valid-burst", "handshake:in:valid-burst")
+		// the stream ends (FIN) or turns faulty directly behind a burst while the handler is slow: everything sent
+		// before that is still delivered; one long pause inside a message loses nothing
+		m := 4
+		if tier == "thorough" {
+			m = 40
+		}
+		for i := 0; i < m; i++ {
+			dir := []string{"out", "in"}[i%2]
+			out = append(out, fmt.Sprintf("updates:%s:n=%d:end=fin:slow=%d:k=f%d", dir, 10+r.Intn(30), 100+r.Intn(400), i),
+				fmt.Sprintf("updates:%s:n=%d:end=badhdr:slow=%d:k=b%d", dir, 10+r.Intn(30), 100+r.Intn(400), i))
+		}
+		out = append(out, "updates:out:n=6:pause=1300:k=p0", "updates:in:n=6:pause=1300:k=p1")
 		return out
 	}
 }
